@@ -35,7 +35,11 @@ const ACTIVE: usize = 0;
 const PASSIVE: usize = 1;
 
 fn role_of(i: usize) -> Role {
-    if i == ACTIVE { Role::Active } else { Role::Passive }
+    if i == ACTIVE {
+        Role::Active
+    } else {
+        Role::Passive
+    }
 }
 fn idx_of(r: Role) -> usize {
     match r {
@@ -71,8 +75,22 @@ enum Sym {
 use Sym::*;
 
 const SYMS: [Sym; 16] = [
-    Conn, ConnRestart, OpenOk, OpenBadAs, OpenWireBad, Ka, Upd, NotifCease, NotifHard, NotifOther,
-    RouteRefresh, HoldExp, KaExp, Disc, Admin, UpdSent,
+    Conn,
+    ConnRestart,
+    OpenOk,
+    OpenBadAs,
+    OpenWireBad,
+    Ka,
+    Upd,
+    NotifCease,
+    NotifHard,
+    NotifOther,
+    RouteRefresh,
+    HoldExp,
+    KaExp,
+    Disc,
+    Admin,
+    UpdSent,
 ];
 const NSYM: usize = 32; // 2 roles x 16
 
@@ -188,9 +206,15 @@ impl Cfg {
         let wire_bad = vec![
             ("identifier-0", open_wire(REMOTE_AS, 0, remote_hold)),
             ("hold-time-1", open_wire(REMOTE_AS, remote_id, 1)),
-            ("identifier-multicast", open_wire(REMOTE_AS, 0xe000_0005, remote_hold)),
+            (
+                "identifier-multicast",
+                open_wire(REMOTE_AS, 0xe000_0005, remote_hold),
+            ),
             ("hold-time-2", open_wire(REMOTE_AS, remote_id, 2)),
-            ("identifier-broadcast", open_wire(REMOTE_AS, 0xffff_ffff, remote_hold)),
+            (
+                "identifier-broadcast",
+                open_wire(REMOTE_AS, 0xffff_ffff, remote_hold),
+            ),
         ];
         Cfg {
             name: format!(
@@ -279,13 +303,22 @@ enum Clause {
 }
 
 /// The statement as a transition function on (slot of this role, slot of the other role).
-fn reference(local_id: u32, remote_id: u32, me: Slot, other: Slot, role: usize, sym: Sym) -> Clause {
+fn reference(
+    local_id: u32,
+    remote_id: u32,
+    me: Slot,
+    other: Slot,
+    role: usize,
+    sym: Sym,
+) -> Clause {
     use Slot::*;
     match (sym, me) {
         (Conn | ConnRestart, Free) => Clause::Accept,
         (Conn | ConnRestart, _) => Clause::Busy,
         (_, Free) => Clause::Stay,
-        (NotifCease | NotifHard | NotifOther | HoldExp | Disc | Admin | OpenWireBad, _) => Clause::Idle,
+        (NotifCease | NotifHard | NotifOther | HoldExp | Disc | Admin | OpenWireBad, _) => {
+            Clause::Idle
+        }
         (KaExp | UpdSent, _) => Clause::Stay,
         (OpenOk, OpenSent) => Clause::EnterOpenConfirm(match other {
             Established => Some(Loser::Role(role)), // an Established connection survives a newcomer
@@ -379,7 +412,11 @@ impl Drv {
     /// otherwise install a fresh one before the session starts.
     fn install_channel(&mut self, r: usize) -> bool {
         if let Drv::Arb { arb, rx } = self {
-            let slot = if r == ACTIVE { &mut arb.active_close_tx } else { &mut arb.passive_close_tx };
+            let slot = if r == ACTIVE {
+                &mut arb.active_close_tx
+            } else {
+                &mut arb.passive_close_tx
+            };
             if slot.is_some() {
                 return false;
             }
@@ -403,7 +440,14 @@ impl Drv {
     }
 
     /// Feed one symbol the way the driver would; `variant` selects the rejected-OPEN image.
-    fn feed(&mut self, cfg: &Cfg, r: usize, sym: Sym, variant: usize, render: Option<&mut Vec<String>>) -> Seen {
+    fn feed(
+        &mut self,
+        cfg: &Cfg,
+        r: usize,
+        sym: Sym,
+        variant: usize,
+        render: Option<&mut Vec<String>>,
+    ) -> Seen {
         let mut seen = Seen::default();
         let input = match sym {
             Conn | ConnRestart => {
@@ -422,7 +466,10 @@ impl Drv {
                     // NOTIFICATION, bypassing the FSM; apply_disconnect then feeds
                     // Input::Disconnected.
                     Err(n) => {
-                        seen.parser = Some((*name, Some((n.notification_code(), n.notification_subcode()))));
+                        seen.parser = Some((
+                            *name,
+                            Some((n.notification_code(), n.notification_subcode())),
+                        ));
                         Input::Disconnected
                     }
                     Ok(m) => {
@@ -433,13 +480,21 @@ impl Drv {
                 }
             }
             Ka => Input::MessageReceived(bgp::Message::Keepalive),
-            Upd => Input::MessageReceived(bgp::Message::Update(bgp::Update::EndOfRib(Family::IPV4))),
-            NotifCease => Input::MessageReceived(bgp::Message::Notification(Notification::CeaseAdminShutdown)),
-            NotifHard => Input::MessageReceived(bgp::Message::Notification(Notification::CeaseHardReset)),
-            NotifOther => {
-                Input::MessageReceived(bgp::Message::Notification(Notification::UpdateMalformedAttributeList))
+            Upd => {
+                Input::MessageReceived(bgp::Message::Update(bgp::Update::EndOfRib(Family::IPV4)))
             }
-            RouteRefresh => Input::MessageReceived(bgp::Message::RouteRefresh { family: Family::IPV4 }),
+            NotifCease => {
+                Input::MessageReceived(bgp::Message::Notification(Notification::CeaseAdminShutdown))
+            }
+            NotifHard => {
+                Input::MessageReceived(bgp::Message::Notification(Notification::CeaseHardReset))
+            }
+            NotifOther => Input::MessageReceived(bgp::Message::Notification(
+                Notification::UpdateMalformedAttributeList,
+            )),
+            RouteRefresh => Input::MessageReceived(bgp::Message::RouteRefresh {
+                family: Family::IPV4,
+            }),
             HoldExp => Input::HoldTimerExpired,
             KaExp => Input::KeepaliveTimerExpired,
             Disc => Input::Disconnected,
@@ -460,7 +515,8 @@ impl Drv {
                     let oi = idx_of(*orole);
                     match out {
                         Output::SendMessage(bgp::Message::Open(op)) if oi == r => {
-                            seen.open_sent = Some((op.as_number, op.router_id, op.holdtime.seconds()));
+                            seen.open_sent =
+                                Some((op.as_number, op.router_id, op.holdtime.seconds()));
                         }
                         Output::SendMessage(m) => {
                             if notif_codes(m) == Some((6, 7)) {
@@ -499,7 +555,8 @@ impl Drv {
                             match &reason {
                                 CloseReason::AdminShutdown => "AdminShutdown".to_string(),
                                 CloseReason::Silent => "Silent".to_string(),
-                                CloseReason::SendMessage(m) => format!("SendMessage({})", render_msg(m)),
+                                CloseReason::SendMessage(m) =>
+                                    format!("SendMessage({})", render_msg(m)),
                             }
                         ));
                     }
@@ -545,8 +602,15 @@ fn render_out(o: &PeerFsmOutput) -> String {
                 Output::SetKeepaliveTimer(n) => format!("SetKeepaliveTimer({})", n),
                 Output::SetHoldTimer(n) => format!("SetHoldTimer({})", n),
                 Output::SessionNegotiated(_) => "SessionNegotiated".into(),
-                Output::SessionEstablished { remote_id, remote_holdtime, .. } => {
-                    format!("SessionEstablished(id={:#010x},hold={})", remote_id, remote_holdtime)
+                Output::SessionEstablished {
+                    remote_id,
+                    remote_holdtime,
+                    ..
+                } => {
+                    format!(
+                        "SessionEstablished(id={:#010x},hold={})",
+                        remote_id, remote_holdtime
+                    )
                 }
                 Output::SessionDown(reason, n) => format!(
                     "SessionDown({}, {})",
@@ -639,7 +703,10 @@ fn judge(
         if seen.parser_accepted && n == Slot::OpenConfirm && p != Slot::OpenConfirm {
             fail(
                 format!("C07/path/open-confirm-by-unacceptable-open/{}", variant),
-                format!("an OPEN with {} was accepted by the parser and moved the connection to OpenConfirm", variant),
+                format!(
+                    "an OPEN with {} was accepted by the parser and moved the connection to OpenConfirm",
+                    variant
+                ),
             );
         }
     }
@@ -659,9 +726,14 @@ fn judge(
             );
         }
     }
-    if seen.session_established && !(p == Slot::OpenConfirm && sym == Ka && n == Slot::Established) {
+    if seen.session_established && !(p == Slot::OpenConfirm && sym == Ka && n == Slot::Established)
+    {
         fail(
-            format!("C07/path/session-established-output-in-{}-by-{}", p.name(), sym.name()),
+            format!(
+                "C07/path/session-established-output-in-{}-by-{}",
+                p.name(),
+                sym.name()
+            ),
             "SessionEstablished emitted outside the OpenConfirm+KEEPALIVE step".into(),
         );
     }
@@ -674,8 +746,19 @@ fn judge(
         let legal = on == Slot::Free && collision.is_some();
         if !legal {
             fail(
-                format!("C07/path/other-role-{}-to-{}-by-{}", op.name(), on.name(), sym.name()),
-                format!("input {} on role {} changed the other role from {} to {}", sym.name(), role_name(r), op.name(), on.name()),
+                format!(
+                    "C07/path/other-role-{}-to-{}-by-{}",
+                    op.name(),
+                    on.name(),
+                    sym.name()
+                ),
+                format!(
+                    "input {} on role {} changed the other role from {} to {}",
+                    sym.name(),
+                    role_name(r),
+                    op.name(),
+                    on.name()
+                ),
             );
         }
     }
@@ -684,7 +767,13 @@ fn judge(
     if next[ACTIVE].busy() && next[PASSIVE].busy() {
         fail(
             format!("C07/at-most-one/{}", both(next[ACTIVE], next[PASSIVE])),
-            format!("after {} on {}: active={} passive={}", sym.name(), role_name(r), next[ACTIVE].name(), next[PASSIVE].name()),
+            format!(
+                "after {} on {}: active={} passive={}",
+                sym.name(),
+                role_name(r),
+                next[ACTIVE].name(),
+                next[PASSIVE].name()
+            ),
         );
     }
 
@@ -704,14 +793,23 @@ fn judge(
             if n != Slot::OpenSent || seen.close_conn {
                 fail(
                     format!("C07/idle/{}/reconnect-refused", c),
-                    format!("connect on role {} whose slot is free (freed by: {}) was not accepted (state {})", role_name(r), c, n.name()),
+                    format!(
+                        "connect on role {} whose slot is free (freed by: {}) was not accepted (state {})",
+                        role_name(r),
+                        c,
+                        n.name()
+                    ),
                 );
             } else {
                 match seen.open_sent {
-                    Some((a, i, h)) if a == LOCAL_AS && i == cfg.local_id && h == cfg.local_hold => {}
+                    Some((a, i, h))
+                        if a == LOCAL_AS && i == cfg.local_id && h == cfg.local_hold => {}
                     other => fail(
                         "C07/path/open-not-sent".into(),
-                        format!("connect accepted but OPEN sent = {:?} (as, id, hold), expected ({}, {}, {})", other, LOCAL_AS, cfg.local_id, cfg.local_hold),
+                        format!(
+                            "connect accepted but OPEN sent = {:?} (as, id, hold), expected ({}, {}, {})",
+                            other, LOCAL_AS, cfg.local_id, cfg.local_hold
+                        ),
                     ),
                 }
                 match c {
@@ -769,14 +867,21 @@ fn judge(
                 if op == Slot::Established && loser == o {
                     fail(
                         "C07/collision/established-did-not-survive".into(),
-                        format!("the Established {} connection was closed in favour of a newcomer", role_name(o)),
+                        format!(
+                            "the Established {} connection was closed in favour of a newcomer",
+                            role_name(o)
+                        ),
                     );
                 } else if let Loser::Role(l) = expected {
                     if l != loser {
                         fail(
                             format!(
                                 "C07/collision/wrong-survivor/local-id-{}",
-                                if cfg.local_id > cfg.remote_id { "higher" } else { "lower" }
+                                if cfg.local_id > cfg.remote_id {
+                                    "higher"
+                                } else {
+                                    "lower"
+                                }
                             ),
                             format!(
                                 "local id {:#010x}, remote id {:#010x}: the {} connection must survive, but {} did",
@@ -792,8 +897,14 @@ fn judge(
                 }
                 if !seen.cease_to[loser] {
                     fail(
-                        format!("C07/collision/no-cease-to-loser/{}", if loser == r { "caller" } else { "other" }),
-                        format!("loser {} was not sent Cease/collision (6/7)", role_name(loser)),
+                        format!(
+                            "C07/collision/no-cease-to-loser/{}",
+                            if loser == r { "caller" } else { "other" }
+                        ),
+                        format!(
+                            "loser {} was not sent Cease/collision (6/7)",
+                            role_name(loser)
+                        ),
                     );
                 } else if mode == Mode::Arbiter && loser != r && !seen.cease_on_channel[loser] {
                     fail(
@@ -851,7 +962,13 @@ fn judge(
             if n != Slot::Free || !seen.down[r] {
                 fail(
                     format!("C07/fsm-error/{}/{}", s.name(), sym.name()),
-                    format!("{} is not allowed in {} but the connection was not torn down (state {}, SessionDown {})", sym.name(), s.name(), n.name(), seen.down[r]),
+                    format!(
+                        "{} is not allowed in {} but the connection was not torn down (state {}, SessionDown {})",
+                        sym.name(),
+                        s.name(),
+                        n.name(),
+                        seen.down[r]
+                    ),
                 );
             } else {
                 match seen.down_notif {
@@ -868,7 +985,10 @@ fn judge(
                     ),
                     other => fail(
                         format!("C07/fsm-error/{}/{}", s.name(), sym.name()),
-                        format!("torn down without an FSM-error NOTIFICATION (notification {:?})", other),
+                        format!(
+                            "torn down without an FSM-error NOTIFICATION (notification {:?})",
+                            other
+                        ),
                     ),
                 }
             }
@@ -884,12 +1004,21 @@ fn judge(
             if n != Slot::Free {
                 fail(
                     format!("C07/idle/{}/not-idle", c),
-                    format!("{} in {} left the connection in {}", sym.name(), p.name(), n.name()),
+                    format!(
+                        "{} in {} left the connection in {}",
+                        sym.name(),
+                        p.name(),
+                        n.name()
+                    ),
                 );
             } else if !seen.down[r] {
                 fail(
                     format!("C07/idle/{}/no-session-down", c),
-                    format!("{} in {} freed the slot without SessionDown", sym.name(), p.name()),
+                    format!(
+                        "{} in {} freed the slot without SessionDown",
+                        sym.name(),
+                        p.name()
+                    ),
                 );
             }
         }
@@ -919,10 +1048,17 @@ fn run_history(
     judge_all: bool,
     t: &mut Tally,
     mut trace: Option<&mut Vec<String>>,
-) -> (RunResult, u64 /*judged*/, bool /*last step non-trivial*/) {
+) -> (
+    RunResult,
+    u64,  /*judged*/
+    bool, /*last step non-trivial*/
+) {
     let mut drv = Drv::new(cfg, mode);
     let mut cause: [&'static str; 2] = ["initial", "initial"];
-    let mut res = RunResult { findings: Vec::new(), at: 0 };
+    let mut res = RunResult {
+        findings: Vec::new(),
+        at: 0,
+    };
     let mut judged = 0u64;
     let mut last_nontrivial = false;
     let mut i = 0usize;
@@ -946,7 +1082,17 @@ fn run_history(
             drv.drop_channel(r);
         }
         let mut rendered = Vec::new();
-        let seen = drv.feed(cfg, r, sym, i + seq.len(), if trace.is_some() { Some(&mut rendered) } else { None });
+        let seen = drv.feed(
+            cfg,
+            r,
+            sym,
+            i + seq.len(),
+            if trace.is_some() {
+                Some(&mut rendered)
+            } else {
+                None
+            },
+        );
         let next = [slot_of(drv.state(ACTIVE)), slot_of(drv.state(PASSIVE))];
         if let Some(tr) = trace.as_deref_mut() {
             tr.push(format!(
@@ -967,13 +1113,25 @@ fn run_history(
             // every step is judged on the states observed before it, so a finding
             // at one step does not disturb the judgement of the following ones
             let before = res.findings.len();
-            judge(cfg, mode, prev, next, r, sym, &seen, &cause, t, &mut res.findings);
+            judge(
+                cfg,
+                mode,
+                prev,
+                next,
+                r,
+                sym,
+                &seen,
+                &cause,
+                t,
+                &mut res.findings,
+            );
             if res.findings.len() > before && before == 0 {
                 res.at = i;
             }
             judged += 1;
             if is_last {
-                last_nontrivial = prev[r] != Slot::Free || (matches!(sym, Conn | ConnRestart) && !seen.skipped_already_connected);
+                last_nontrivial = prev[r] != Slot::Free
+                    || (matches!(sym, Conn | ConnRestart) && !seen.skipped_already_connected);
             }
         }
         // remember what freed a slot (names the idle clause's "subsequent connect")
@@ -996,7 +1154,10 @@ fn run_history(
         // task, or a message on its close channel) runs apply_disconnect next
         if mode == Mode::Arbiter && !is_auto {
             for x in 0..2 {
-                let ended = (x == r && (seen.down[r] || seen.close_conn || seen.parser.is_some_and(|p| p.1.is_some())))
+                let ended = (x == r
+                    && (seen.down[r]
+                        || seen.close_conn
+                        || seen.parser.is_some_and(|p| p.1.is_some())))
                     || seen.cease_on_channel[x]
                     || seen.other_on_channel[x];
                 // a parse error ends the session before the FSM hears of it: the
@@ -1081,7 +1242,11 @@ fn shrink(cfg: &Cfg, mode: Mode, seq: &[u8], sig: &str) -> Vec<u8> {
 fn configs() -> Vec<Cfg> {
     // identifiers chosen so that numeric (network-order) and byte-swapped orders disagree
     let local = 0x0200_0001u32; // 2.0.0.1
-    let remotes = [0x0100_0003u32 /* 1.0.0.3 < */, 0x0300_0000u32 /* 3.0.0.0 > */, local /* = */];
+    let remotes = [
+        0x0100_0003u32, /* 1.0.0.3 < */
+        0x0300_0000u32, /* 3.0.0.0 > */
+        local,          /* = */
+    ];
     let holds = [(90u16, 30u16), (0, 90), (9, 0)];
     let mut v = Vec::new();
     for r in remotes {
@@ -1123,9 +1288,14 @@ fn exhaustive(rep: &mut Report, params: &Params, depth: usize, t: &mut Tally) {
                 let mut seq = vec![0u8; d];
                 let mut n_since_check = 0u32;
                 loop {
-                    let bucket = if d >= 2 { seq[0] as usize * NSYM + seq[1] as usize } else { seq[0] as usize };
+                    let bucket = if d >= 2 {
+                        seq[0] as usize * NSYM + seq[1] as usize
+                    } else {
+                        seq[0] as usize
+                    };
                     if bucket % nshards == me {
-                        let (res, judged, nontrivial) = run_history(cfg, mode, &seq, false, t, None);
+                        let (res, judged, nontrivial) =
+                            run_history(cfg, mode, &seq, false, t, None);
                         rep.evals(judged);
                         if nontrivial {
                             let mut key = vec![ci as u8, mode as u8];
@@ -1142,7 +1312,11 @@ fn exhaustive(rep: &mut Report, params: &Params, depth: usize, t: &mut Tally) {
                                 report_findings(rep, cfg, mode, &seq, res);
                             }
                         }
-                        if rep.want_sample() && d == depth && nontrivial && seq[d - 1] as usize % 16 == 5 {
+                        if rep.want_sample()
+                            && d == depth
+                            && nontrivial
+                            && seq[d - 1] as usize % 16 == 5
+                        {
                             let mut tr = Vec::new();
                             let mut t2 = Tally::default();
                             let _ = run_history(cfg, mode, &seq, true, &mut t2, Some(&mut tr));
@@ -1177,13 +1351,29 @@ fn exhaustive(rep: &mut Report, params: &Params, depth: usize, t: &mut Tally) {
 }
 
 fn random_cfg(rng: &mut Rng) -> Cfg {
-    let ids = [0x0100_0009u32, 0x0900_0001, 0x0a00_0001, 0x0a00_0002, 0xc0a8_0101, 0x0000_0001, 0xdfff_fffe];
-    let local = if rng.chance(1, 3) { rng.range(1, 0xdfff_fffe) as u32 } else { *rng.pick(&ids) };
+    let ids = [
+        0x0100_0009u32,
+        0x0900_0001,
+        0x0a00_0001,
+        0x0a00_0002,
+        0xc0a8_0101,
+        0x0000_0001,
+        0xdfff_fffe,
+    ];
+    let local = if rng.chance(1, 3) {
+        rng.range(1, 0xdfff_fffe) as u32
+    } else {
+        *rng.pick(&ids)
+    };
     let remote = if rng.chance(1, 8) {
         local
     } else if rng.chance(1, 3) {
         // neighbours of the local identifier
-        if rng.bool() { local.wrapping_add(1) } else { local.wrapping_sub(1) }
+        if rng.bool() {
+            local.wrapping_add(1)
+        } else {
+            local.wrapping_sub(1)
+        }
     } else if rng.chance(1, 2) {
         local.swap_bytes()
     } else {
@@ -1252,8 +1442,18 @@ fn random_histories(rep: &mut Report, params: &Params, count: u64, t: &mut Tally
                     let small = shrink(&cfg, mode, &seq, &f.sig);
                     let mut t2 = Tally::default();
                     let (r2, _, _) = run_history(&cfg, mode, &small, true, &mut t2, None);
-                    let keep: Vec<Finding> = r2.findings.into_iter().filter(|g| g.sig == f.sig).collect();
-                    report_findings(rep, &cfg, mode, &small, RunResult { findings: keep, at: r2.at });
+                    let keep: Vec<Finding> =
+                        r2.findings.into_iter().filter(|g| g.sig == f.sig).collect();
+                    report_findings(
+                        rep,
+                        &cfg,
+                        mode,
+                        &small,
+                        RunResult {
+                            findings: keep,
+                            at: r2.at,
+                        },
+                    );
                 }
             }
         }
@@ -1301,7 +1501,13 @@ fn probe_late_apply_disconnect(rep: &mut Report) {
     let accepted = !seen.skipped_already_connected && slot_of(drv.state(PASSIVE)) == Slot::OpenSent;
     // the old loser's apply_disconnect
     drv.drop_channel(PASSIVE);
-    step(&mut drv, PASSIVE, Disc, "(old loser's apply_disconnect) ", &mut trace);
+    step(
+        &mut drv,
+        PASSIVE,
+        Disc,
+        "(old loser's apply_disconnect) ",
+        &mut trace,
+    );
     let killed = accepted && slot_of(drv.state(PASSIVE)) == Slot::Free;
     rep.count(if killed {
         "unjudged:race-probe:late-apply-disconnect-clears-successor-slot"
@@ -1310,7 +1516,10 @@ fn probe_late_apply_disconnect(rep: &mut Report) {
     });
     rep.extra(
         "race_probe_late_apply_disconnect",
-        Json::obj(vec![("successor_slot_cleared", Json::Bool(killed)), ("trace", Json::strs(trace))]),
+        Json::obj(vec![
+            ("successor_slot_cleared", Json::Bool(killed)),
+            ("trace", Json::strs(trace)),
+        ]),
     );
 }
 
